@@ -8,6 +8,7 @@
 (*   fs    : one file-system call returned / raised / was the crash point            *)
 (*   start : the constructor returned (ok) or raised                                 *)
 (*   ret   : a call of the driver (save / change / writeinit) returned               *)
+(*   reload: loadParameters() returned                                               *)
 (* classes of the target file: "absent" | "c:<snapshot id>" | "partial"              *)
 EXTENDS Naturals, Sequences, TLC, TLCExt, Json, IOUtils
 
@@ -50,10 +51,17 @@ RetClauses(e) ==
      <<"Retry.saved", (e.must /\ e.faults = 0 /\ e.out # "crash") => (e.target = e.cur \/ Stale(e))>>,
      <<"Retry.believed", e.out # "crash" => (P!SkipOK(e.skip, e.target, e.cur) \/ Stale(e))>> >>
 
+(* loadParameters() in a running module: usable stored entries replace the values, others stay *)
+ReloadClauses(e) ==
+  << <<"Consistent", e.target = s.target>>,
+     <<"RoundTrip", (s.tk /\ e.faults = 0) => \A p \in DOMAIN e.file : e.file[p] = s.tv[p]>>,
+     <<"Reload.values", e.ok => \A p \in DOMAIN e.got : e.got[p] = P!Expected(P!NoVal, e.file[p], e.before[p])>> >>
+
 Clauses(e) == CASE e.ev = "fs" -> FsClauses(e)
                 [] e.ev = "boot" -> BootClauses(e)
                 [] e.ev = "start" -> StartClauses(e)
                 [] e.ev = "ret" -> RetClauses(e)
+                [] e.ev = "reload" -> ReloadClauses(e)
                 [] OTHER -> << <<"unknown event", FALSE>> >>
 
 FirstBad(cl) == LET bad == SelectSeq(cl, LAMBDA c : ~c[2]) IN IF bad = <<>> THEN "" ELSE bad[1][1]
@@ -61,11 +69,13 @@ FirstBad(cl) == LET bad == SelectSeq(cl, LAMBDA c : ~c[2]) IN IF bad = <<>> THEN
 (* ---- state update ---- *)
 Nxt(e) ==
   CASE e.ev = "fs" ->
-         IF e.target # s.target THEN [s EXCEPT !.target = e.target, !.tk = TRUE, !.tv = e.vals] ELSE s
+         IF e.target # s.target THEN [s EXCEPT !.target = e.target, !.tk = TRUE,
+                                               !.tv = IF "vals" \in DOMAIN e THEN e.vals ELSE <<>>] ELSE s
     [] e.ev = "boot" ->
          [s EXCEPT !.target = e.pre, !.alive = FALSE, !.file = e.file, !.bel = "",
                    !.tk = (s.tk /\ e.pre = s.target)]
     [] e.ev = "start" -> [s EXCEPT !.alive = TRUE]
+    [] e.ev = "reload" -> [s EXCEPT !.alive = (e.out # "crash"), !.bel = ""]
     [] e.ev = "ret" -> [s EXCEPT !.alive = (e.out # "crash"),
                                  !.bel = IF e.out = "crash" THEN "" ELSE IF e.skip THEN e.cur ELSE s.bel]
 
